@@ -21,6 +21,12 @@ CHECKS = {
     ref="DESIGN.md §4 C06",
     note="Trusted: the independent cmap writer/reader (self-tested against each other at setup) and the Python-codec tables; the documented subtable preference order.",
     technique="reference-model oracle over generated cmap tables + exhaustive conversion sub-spaces"),
+ "C10": dict(
+    cat="exploration",
+    text="Runtime monitoring by conservation: whatever table bytes the harness's own sfnt/TTC/WOFF writers store must come back byte-for-byte through every container reader, with the tag set, flavour, absence and out-of-range member behaviour checked; both flate2 backends in the thorough tier.",
+    ref="DESIGN.md §4 C10",
+    note="Trusted: the independent container writers. zlib encoding by flate2.",
+    technique="round-trip/conservation oracle over generated containers"),
  "C13": dict(
     cat="exploration",
     text="Runtime monitoring against an exact rational reference model of fvar/avar normalisation over generated axis triples, segment maps and user values, with exhaustive coverage of all 65536 F2Dot14 values for the fixed-point conversions.",
@@ -33,6 +39,18 @@ CHECKS = {
     ref="DESIGN.md §4 C14",
     note="Trusted: the shadow model; hook placement in the four primitive readers; Miri/ASan/valgrind semantics. Not covered: reader operations on types with non-unit Args other than those the real parsers use.",
     technique="shadow-model monitor over op histories + read-window hook + Miri/ASan/memcheck"),
+ "C16": dict(
+    cat="exploration",
+    text="Runtime monitoring against a contour/transform reference model: generated glyf tables (all on/off-curve patterns, flag encodings, composite transform kinds and nesting) are visited and the delivered drawing commands compared with the model modulo start-point rotation.",
+    ref="DESIGN.md §4 C16",
+    note="Trusted: the independent glyf writer/reader (round-trip self-check per case) and the model's reading of the glyf specification. Point-matching composites and scaled component offsets are exercised but not judged.",
+    technique="reference-model oracle over generated glyf tables (recording OutlineSink)"),
+ "C17": dict(
+    cat="exploration",
+    text="Runtime monitoring of text preprocessing against table-free relational invariants (permutation, bases fixed, mark runs permuted within themselves, content changes explained by the documented rewrites) and exact per-script reference models (stable sort by modified combining class, UTR #53, AM / Indic / Khmer rewrites) over generated hostile texts and an enumerated small-text sub-space.",
+    ref="DESIGN.md §4 C17",
+    note="Trusted: Python unicodedata tables (generated file), the transcribed modified-combining-class table and prohibited-pair list, the UTR #53 reference.",
+    technique="relational invariants + reference-model oracle over generated texts"),
 }
 
 ALL = ["C%02d" % i for i in range(1, 19)]
